@@ -262,7 +262,8 @@ Definition list_tail : M vcell :=
 
 (* ================================================== vector.rs (vm/vector.rs) *)
 (* Vector::get: None out of range; Vector::put: silently ignores an index out of range *)
-Definition vget (l : list vcell) (i : N) : option vcell := list_get l i.
+(* the range test first: [list_get] converts the index to nat *)
+Definition vget (l : list vcell) (i : N) : option vcell := if i <? len l then list_get l i else None.
 Definition vput (l : list vcell) (i : N) (v : vcell) : list vcell :=
   if i <? len l then list_set l i v else l.
 
